@@ -64,7 +64,7 @@ def scenario(big: bool = False) -> Any:
         d["drain"] = 0.0
         return d
 
-    base = cm.message(kinds=("async", "async", "async", "sync"),
+    base = cm.message(kinds=("async", "async", "async", "sync", "swapped"),
                       outs=("ret", "ret", "ret", "ValueError", "MyErr", "KeyboardInterrupt", "SystemExit", "CancelledError",
                             "MyBase", "NoResult", "EmptyBatchError", "BadStrError"),
                       timeouts=(None, None, 0.3, 0.35, 1, "0.3", "1", 3, "3.0", 1.5, "2.5"), acks=("sync",), durs=cm.DURS + [2.0])
